@@ -21,6 +21,6 @@ without=$(cd $dir && go test -mod=mod -vet=off -count=1 $race -run '^TestDemo$' 
 rm -f $dir/zz_demo_test.go
 git apply $d/patch.diff
 caught=$(/verif/bin/muxlint -repo $wt -evidence /tmp/seed-ev-$$ -property all 2>&1 | grep -E '^C[0-9]+ tier' | grep -v 'exit=0' | awk '{print $1":"$NF}' | sed 's/(.*//' | tr '\n' ' ')
-rules=$(/verif/bin/muxlint -repo $wt -evidence /tmp/seed-ev-$$ -property all -obligations 2>&1 | grep -E '^  FAIL' | awk '{print $2}' | sort -u | tr '\n' ' ')
+rules=$(/verif/bin/muxlint -repo $wt -evidence /tmp/seed-ev-$$ -property all -obligations 2>&1 | grep -E '^  FAIL|CHECKER-ERROR' | awk '{ if ($1=="FAIL") print $2; else print "CHECKER-ERROR" }' | sort -u | tr '\n' ' ')
 echo "$name: suite_fail_lines=$suite race=[$race] with=[$with] without=[$without] caught=[$caught] rules=[$rules]"
 rm -f /tmp/seed-apply-$$ /tmp/seed-build-$$
